@@ -87,9 +87,9 @@ type Server struct {
 	methods              map[string]*methodInfo
 	serverID             string
 	serviceName          string
-	protocolVersion      string // canonical semver MAJOR.MINOR.PATCH, or "" when opted out
-	protocolVersionParts [3]int // parsed (major, minor, patch); used when protocolVersion != ""
-	protocolVersionSet   bool   // true when SetProtocolVersion was called with a non-empty value
+	protocolVersion      string    // canonical semver MAJOR.MINOR.PATCH, or "" when opted out
+	protocolVersionParts [3]string // parsed (major, minor, patch); used when protocolVersion != ""
+	protocolVersionSet   bool      // true when SetProtocolVersion was called with a non-empty value
 	protocolHash         string
 	protocolHashOnce     sync.Once
 	dispatchHook         DispatchHook
@@ -276,7 +276,7 @@ func (s *Server) SetProtocolVersion(v string) {
 	if v == "" {
 		s.protocolVersion = ""
 		s.protocolVersionSet = false
-		s.protocolVersionParts = [3]int{}
+		s.protocolVersionParts = [3]string{}
 		return
 	}
 	major, minor, patch, err := parseSemver(v)
@@ -284,7 +284,7 @@ func (s *Server) SetProtocolVersion(v string) {
 		panic(err)
 	}
 	s.protocolVersion = v
-	s.protocolVersionParts = [3]int{major, minor, patch}
+	s.protocolVersionParts = [3]string{major, minor, patch}
 	s.protocolVersionSet = true
 }
 
@@ -322,12 +322,15 @@ func (s *Server) checkProtocolVersion(clientVersion string, present bool) *Proto
 				"Expected canonical semver MAJOR.MINOR.PATCH.",
 		}
 	}
-	serverMajor, serverMinor := s.protocolVersionParts[0], s.protocolVersionParts[1]
-	if major == serverMajor && minor == serverMinor {
+	// Components are canonical digit strings of unbounded length; compare
+	// them numerically rather than through a machine int (see parseSemver).
+	majorCmp := compareSemverPart(major, s.protocolVersionParts[0])
+	minorCmp := compareSemverPart(minor, s.protocolVersionParts[1])
+	if majorCmp == 0 && minorCmp == 0 {
 		return nil
 	}
 	var direction string
-	if major < serverMajor || (major == serverMajor && minor < serverMinor) {
+	if majorCmp < 0 || (majorCmp == 0 && minorCmp < 0) {
 		direction = "client is too old; upgrade the VGI extension/client to a " +
 			"version supporting protocol_version " + s.protocolVersion + "."
 	} else {
